@@ -33,7 +33,7 @@ SCAFFOLD = [('S', {
     # arguments that are expressions / bracketed / read through a formula cell
     'X1': '=A1', 'Y1': '=LEFT(A1&"",B1+0)', 'Z1': '=RIGHT((A1),(B1))', 'AA1': '=MID(X1,B1*1,C1+0)', 'AB1': '=LEFT(X1,B1)&""',
     'K1': 'a', 'L1': '=SEARCH(K1,A1)', 'M1': '=SEARCH(K1,A1,B1)',
-    'N1': '=VALUE(A1)',
+    'N1': '=VALUE(A1)', 'N2': '=VALUE(A1)=A1', 'N3': '=VALUE(A1+0)',
     'P1': 1, 'Q1': 2, 'R1': 3,
     'S1': '=P1&Q1', 'T1': '=CONCATENATE(P1,Q1)', 'U1': '=P1&Q1&R1', 'V1': '=CONCATENATE(P1,Q1,R1)',
     'W1': '=CONCATENATE(P1)',
@@ -395,8 +395,9 @@ def run_concat_ov(cases, stats):
         if continue_blank:
             stats['x:blank_via_items_only'] += 1
             continue
-        o = S.run(cls, ov, addrs, stats)
+        o = S.run(cls, ov, addrs + ['W1'], stats)
         judge_concat(vals, {'&': o[0], 'CONCATENATE': o[1]}, 'ov', stats, i, vio)
+        judge_concat(vals[:1], {'CONCATENATE/1': o[2]}, 'ov', stats, i, vio)
     return vio
 
 
@@ -447,6 +448,11 @@ def run_concat_items(cases, stats):
 # ---------------------------------------------------------------------------------------------
 # VALUE
 
+def grid_first():
+    from mc.props.c16 import grid
+    return next(iter(grid(2)))
+
+
 def value_of(x: str):
     x = x.strip()
     if x.endswith('%'):
@@ -468,9 +474,20 @@ def judge_value(x, o, src, stats, i, vio, pad='none'):
                     'fraction': '.' in x}, o, want)
 
 
+NUMBERS_FOR_VALUE = [0.1 + 0.2, 1 / 3, 2 / 3, 1e-7, 123456789.12345678, 0.30000000000000004, 5, -2.5, 1e15 + 0.5, 2.0]
+
+
 def run_value_ov(cases, stats):
     cls = S.get_class(SCAFFOLD, stats=stats)
     vio = []
+    if cases and cases[0].get('x') == grid_first():
+        # VALUE of a number is that number, every digit of it (once per run)
+        for v in NUMBERS_FOR_VALUE:
+            o = S.run(cls, [('A1', v)], ['N1', 'N2', 'N3'], stats)
+            stats['validated'] += 3
+            for form, oo, w in (('VALUE(n)', o[0], v), ('VALUE(n)=n', o[1], True), ('VALUE(n+0)', o[2], v)):
+                if not same(w, oo):
+                    _v(vio, 0, {'func': 'VALUE', 'src': 'ov', 'form': form, 'of': 'number'}, oo, w)
     for i, c in enumerate(cases):
         for j, (a, b) in enumerate(PADS):
             o, = S.run(cls, [('A1', a + c['x'] + b)], ['N1'], stats)
